@@ -264,6 +264,44 @@ def snapshot_scenario(ctx, d, binary, snapcount, with_list, nsets, tag):
         cluster.close()
 
 
+def follower_snapshot_replay(binary):
+    """The same finding through the other door: a follower that was down while the leader compacted
+    its log is sent a snapshot (rd.Snapshot -> publishSnapshot -> 'commitC <- nil', only logged):
+    it then serves a keyspace without anything the snapshot covers."""
+    cluster = clusterlib.Cluster(binary, 3, tag="c08fs", env={"VERIF_SNAPSHOT_COUNT": "5", "VERIF_SNAPSHOT_CATCHUP": "2"})
+    try:
+        cluster.start_all()
+        if cluster.wait_ready():
+            return "not run (cluster start-up)"
+        cluster.kill(2)
+        k = None
+        for i in (0, 1):
+            try:
+                k = cluster.client(i, timeout=20)
+                if k.cmd([b"set", b"fs:probe", b"1"]).startswith("+"):
+                    break
+            except (OSError, clusterlib.ConnClosed, socket.timeout):
+                k = None
+        if k is None:
+            return "not run (no quorum answer)"
+        n = sum(1 for i in range(20) if k.cmd([b"set", b"fs:%d" % i, b"v"]).startswith("+"))
+        k.close()
+        cluster.start(2)
+        if cluster.wait_ready(nodes=[2], timeout=40):
+            return "not run (node 3 did not come back)"
+        time.sleep(0.5)
+        d1, d3 = dump_map(cluster, 0), dump_map(cluster, 2)
+        if d1 is None or d3 is None:
+            return "not run (no dump)"
+        missing = sorted(x.decode("latin-1") for x in d1 if x.startswith(b"fs:") and x not in d3)
+        if missing:
+            return ("reproduced (3 nodes, threshold 5): node 3 down during %d acknowledged SETs, restarted, receives a snapshot from the leader: "
+                    "node 1 holds %d fs:* keys, node 3 lacks %d of them (%s ...)" % (n, sum(1 for x in d1 if x.startswith(b"fs:")), len(missing), ", ".join(missing[:4])))
+        return "not reproduced (node 3 holds every key)"
+    finally:
+        cluster.close()
+
+
 # ----------------------------------------------------------------------------- driver
 def run(ctx):
     cov, broken = lib.proof_gate(ctx, extra_tb=[
@@ -359,6 +397,8 @@ def run(ctx):
                 else:
                     known[fid] = ("reproduced (threshold %d): RPUSH lst x then %d acknowledged SETs: node dies with '%s'; after a restart it replays the log and dies again: %s"
                                   % (sc, detail["acknowledged_writes"] - 1, o["crash"][:90].replace("\n", " "), o.get("after")))
+    if not quick and not err and not failing:
+        known["snapshot-state-not-reloaded"] = known.get("snapshot-state-not-reloaded", "") + "; follower: " + follower_snapshot_replay(binary)
     rc = 0
     if failing:
         lib.violation(PID, failing)
